@@ -78,6 +78,7 @@ namespace c08
             hi = m + (NPAGES + 1) * PG;
         }
         void wipe() { memset(lo, fill, hi - lo); }
+        void readonly(bool on) { mprotect(lo, hi - lo, on ? PROT_READ : PROT_READ | PROT_WRITE); }
         uint8_t *win(int pl) { return pl == AFTER ? hi - W : lo; }
         // both windows are reset, so that a wild scan through the page sees the same bytes in every run
         void reset(int)
@@ -118,6 +119,7 @@ namespace c08
         int c = 0;
         int pl = AFTER;
         const char *cls = "";
+        int ro = 0;
         char extra[96] = "";
     };
     extern Call K;
@@ -125,6 +127,12 @@ namespace c08
     extern void (*lazy_extra)(); // fills K.extra when a message is actually needed
     extern unsigned long nbad;   // number of bad()/fault() reports so far
     extern unsigned long ncalls; // calls of the functions under test so far
+    // READ-ONLY INPUTS: while RO_ON, the arenas holding the const operands of the current call (K.ro, bit = slot) are
+    // PROT_READ during the call: a routine that patches its input temporarily (sentinel, temporary NUL) and restores it
+    // is invisible to the before/after comparison but faults here
+    extern bool RO_ON;
+    int ro_mask_for(const char *fn);
+    bool guarded_ro(const std::function<void()> &f);
     extern const char *ONLY;     // history sub-checks: the testers that bundle several functions call only this one
     // History schedule shared by str_history / mem_history: one function is called HIST_STEPS times in one process.
     // Step k uses a "common" argument tuple (rotation of period 7) except: for each gap g of HIST_GAPS a RARE tuple
@@ -158,6 +166,10 @@ namespace c08
 
     inline void setK(const char *fn, const uint8_t *a, long alen, const uint8_t *b = nullptr, long blen = -1)
     {
+        if (fn != K.fn) // signature prefix should the process die inside the call (stack overflow, endless recursion)
+            mc::crash_context("C08.%s", fn);
+        if (fn != K.fn)
+            K.ro = ro_mask_for(fn);
         K.fn = fn;
         K.a = a;
         K.alen = alen;
@@ -224,7 +236,7 @@ namespace c08
     do                                    \
     {                                     \
         c08::ncalls++;                    \
-        if (!mc::guarded([&] { expr; }))  \
+        if (!c08::guarded_ro([&] { expr; })) \
         {                                 \
             c08::fault();                 \
             return;                       \
